@@ -3,11 +3,12 @@ import Femio.Driver.C05
 import Femio.Driver.C07
 import Femio.Driver.C08
 import Femio.Driver.C13
+import Femio.Driver.C19
 /-! `femio_driver`: line-protocol front end of the executable model (imports core-only modules). -/
 open Femio
 
 def handlers : List (List String → Option String) :=
-  [ C05.handle, C07.handle, C08D.handle, C13.handle ]
+  [ C05.handle, C07.handle, C08D.handle, C13.handle, C19.handle ]
 
 def handleLine (line : String) : String :=
   let toks := Proto.tokens line
